@@ -188,6 +188,15 @@ func (c *Ctx) stateConstSets() map[*ssa.Function]map[string]bool {
 	for _, f := range c.Fns {
 		set := map[string]bool{}
 		eachInstr(f, func(r instrRef) {
+			// membership in a package-level set of constants (`_, ok := terminalStates[s]`) compares with every key
+			if lk, isLk := r.In.(*ssa.Lookup); isLk {
+				if keys, ok := c.Prog.constSetOfLookup(lk); ok && isStateValue(lk.Index, 0) {
+					for _, k := range keys {
+						set[k] = true
+					}
+				}
+				return
+			}
 			b, ok := r.In.(*ssa.BinOp)
 			if !ok || (b.Op != token.EQL && b.Op != token.NEQ) {
 				return
